@@ -950,8 +950,13 @@ class Interp:
         # generic MIR: `<T as Trait>::method` with T a type parameter -> dispatch on the run-time value
         m = re.fullmatch(r'<([A-Z]\w*) as (.*)>::(\w+)', callee, re.S)
         if m and argv:
-            rt_ty = self.runtime_type(argv[0])
+            probe = argv[0]
+            if isinstance(probe, Adt) and probe.ty == 'std::pin::Pin':
+                probe = probe.fields[0]         # `self: Pin<&mut R>`: dispatch on R
+            rt_ty = self.runtime_type(probe)
             if rt_ty is not None:
+                if probe is not argv[0]:
+                    return self.call('<%s as %s>::%s' % (rt_ty, m.group(2), m.group(3)), argv, dest_ty)
                 # the type parameter may itself be a reference (`U = &Key<T>`): the blanket impls for `&T`
                 # forward to `T`, so peel references down to one level
                 recv = argv[0]
@@ -1173,6 +1178,9 @@ class Interp:
         plain = mir.strip_generics(c)
         if plain in self.bodies:
             return plain
+        from .adts import ALIASES
+        if ALIASES.get(plain) in self.bodies:       # re-exported free function
+            return ALIASES[plain]
         # <T as Trait>::method   (T possibly with generics); generic arguments of the method itself are dropped
         if c.startswith('<'):
             try:
@@ -1251,6 +1259,23 @@ class Interp:
                         return hits[0]
                 return None
             return None
+        # `module::<impl Type<..>>::method` (how MIR names inherent methods of generic impls, e.g. pin-project's)
+        m = re.fullmatch(r'([\w:]*?)<impl (.*)>::(\w+)(?:::<.*>)?', c, re.S)
+        if m and not c.startswith('<'):
+            want = base_ty(m.group(2))
+            hits = []
+            for name in self.impl_names.get(m.group(3), []):
+                if not name.startswith(m.group(1) + '<impl at '):
+                    continue
+                b = self.bodies[name]
+                if not b.args:
+                    continue
+                st = re.sub(r"^(&(?:'\w+ )?(?:mut )?)", '', b.args[0][1])
+                st = re.sub(r"^std::pin::Pin<&(?:'\w+ )?(?:mut )?(.*)>$", r'\1', st)
+                if base_ty(st) == want:
+                    hits.append(name)
+            if len(hits) == 1:
+                return hits[0]
         # inherent / associated fn:  path::Type::method  or free fn with generics stripped
         if '::' in plain:
             r = self.method_index.get(plain)
